@@ -149,7 +149,7 @@ class OptionalCoercerProvider(NormTypeCoercerProvider):
         return optional_coercer
 
     def _is_optional(self, norm: BaseNormType) -> bool:
-        return norm.origin == Union and None in [case.origin for case in norm.args]
+        return norm.origin == Union and len(norm.args) == 2 and None in [case.origin for case in norm.args]  # noqa: PLR2004
 
     def _get_not_none(self, norm: BaseNormType) -> BaseNormType:
         return next(case for case in norm.args if case.origin is not None)
